@@ -110,6 +110,7 @@ public:
   INLINE TypeIndex get_nested_type(int n) const;
 
   void merge_with(const InterrogateType &other);
+  bool is_preferable_to(const InterrogateType &other) const;
   void output(std::ostream &out) const;
   void input(std::istream &in);
 
@@ -149,6 +150,10 @@ private:
 
 public:
   int _flags;
+
+  // True if F_global is set only because a definition that was merged into
+  // this one had it, rather than the definition whose contents we kept.
+  bool _global_by_merge;
 
   std::string _scoped_name;
   std::string _true_name;
